@@ -24,6 +24,8 @@ func main() {
 		serveMain(os.Args[2:])
 	case "tcp":
 		tcpMain(os.Args[2:])
+	case "crash":
+		crashMain(os.Args[2:])
 	default:
 		fmt.Fprintln(os.Stderr, "unknown mode", os.Args[1])
 		os.Exit(2)
